@@ -11,7 +11,7 @@ EXPLANATION = (
     "table; (R2) no lock is re-acquired while its own guard may be held; (R3) no atomic cell is loaded, compared and "
     "then updated by a separate non-CAS write in the same function (check-then-act); (R4) id / epoch allocators are "
     "written only by atomic read-modify-write operations; (R5) a function that updates a primary structure and its "
-    "mirrors does so under one continuously held guard of the group; (R6) allocate and release touch the same "
+    "mirrors does so under one continuously held guard of the group; (R6b, under R6) a grant method that reserves through the releaser writes the grant's size only after the reservation succeeded or on the shrinking side; (R6) allocate and release touch the same "
     "counters and a dropped grant reaches release. Linearizability of outcomes is not decided.")
 ASSUMPTIONS = ["locks are identified by the struct field they live in (all instances of a type share an identity)",
                "parking_lot read locks can block behind a queued writer, so read-read order inversions count"]
@@ -278,6 +278,37 @@ def run(ctx):
     ctx.ob("R6", "BufferManager#allocate-release-cells", Wa == Wr and len(Wa) == 2,
            what="try_allocate adds to %s but release subtracts from %s: the accounting cannot return to zero"
                 % (sorted(cn(c) for c in Wa), sorted(cn(c) for c in Wr)), where=rel.loc())
+    # a grant records a size only when the manager's accounting has moved with it: in a grant method that reserves through the
+    # releaser (try_allocate*), every write of the grant's own `size` is dominated by the reservation having succeeded, or
+    # by a comparison that establishes the shrinking side. A write before the outcome is known leaves a refused grow
+    # recorded: the grant later releases memory it never held, `allocated` under-counts and finally wraps below zero.
+    n6 = 0
+    for g in P.methods_of("MemoryGrant"):
+        if g.kind == "closure":
+            continue
+        res = [bi for bi, t in g.calls() if (t.get("f") or callee_name(t)).split("::")[-1].startswith("try_allocate")]
+        if not res:
+            continue
+        gx = FlowCx(P, g)
+        k = 0
+        for bi, t in g.calls():
+            c = callee_name(t)
+            if not ("atomic::Atomic" in c and c.split("::")[-1] in ("store", "swap", "fetch_add", "fetch_sub", "fetch_max", "fetch_min", "fetch_update",
+                                                                    "compare_exchange", "compare_exchange_weak")):
+                continue
+            if not t["args"] or "cell:MemoryGrant.size" not in gx.tags(t["args"][0]):
+                continue
+            n6 += 1
+            facts = gx.facts_at(bi)
+            ok = any(x[0] == "call" and x[1].split("::")[-1].startswith("try_allocate") and x[2] is True for x in facts) or \
+                any(x[0] == "cmp" and x[1] in ("Lt", "Le", "Eq") for x in facts)
+            ctx.ob("R6", "%s#size-write-after-outcome[%d]" % (short_id(g.id), k), ok,
+                   what="%s writes the grant's size before the outcome of the reservation is known (the write is dominated neither by a "
+                        "successful try_allocate* nor by the shrinking comparison): a refused grow stays recorded, the grant later "
+                        "releases memory it never held and the manager's accounting under-counts, then wraps" % short_id(g.id),
+                   where=g.loc(t["line"]))
+            k += 1
+    ctx.floor("R6", n6, 1, "writes of MemoryGrant.size in reserving methods")
     drop = P.method("MemoryGrant", "Drop", "drop")
     ctx.ob("R6", "MemoryGrant#drop-releases", rel.id in P.reach([drop]),
            what="dropping a MemoryGrant does not reach GrantReleaser::release", where=drop.loc())
